@@ -7,3 +7,12 @@ C("C05", "exploration",
   "Re IDFT(R*DFT(pad x)) computed by an O(N^2) DFT, plus linearity, response homogeneity, identity, bit-identical offset "
   "invariance, energy non-increase and no-wrap delay. The claim is exactly: all lattice points.",
   "numpy.fft trusted as reference above N=65; continuum of signals/responses covered only on the lattice", "DESIGN.md §4 C05")
+C("C04", "model_checking",
+  "explicit-state BFS over pools of real signal objects with deepcopy snapshots, reference model compared after every transition",
+  "Breadth-first search from all 169 ordered pairs of a 13-entry signal catalogue (all three classes + a subclass, all value types, "
+  "length 1/2, shifted and 2^40*dt grids) through a 78-action alphabet (copy, re-grid on 5 grids incl. a list argument, +, 0+, "
+  "scalings, in-place scalings, shift, type assignment, in-place poke, set_buffers, filter) to depth 2 (quick) / 3 (thorough); after "
+  "every transition every register is compared with a plain-list reference model, every array handed to the library must be unchanged, "
+  "and no two distinct registers or argument arrays may share memory. Plus the full constructor lattice len(times) x len(values) in 0..4.",
+  "canonical key = reference models of all registers + identity partition (futures depend on nothing else); deepcopy preserves aliasing "
+  "between registers; result class of '+' not constrained", "DESIGN.md §4 C04")
